@@ -10,18 +10,20 @@ VARIABLE l
 tvars == <<mode, open, ran, running, result, eligible, cached, l>>
 
 E == Trace[l]
+\* the object an event is about; drivers that exercise a single object may omit the field
+ObjOf(ev) == IF "o" \in DOMAIN ev THEN ev.o ELSE 1
 IsEvent(e) == l <= Len(Trace) /\ E.e = e /\ l' = l + 1
 
 TReset     == IsEvent("reset")     /\ PReset(E.mode)
-TCallStart == IsEvent("callStart") /\ CanCallStart(E.c, E.k) /\ PCallStart(E.c, E.k)
+TCallStart == IsEvent("callStart") /\ CanCallStart(E.c, ObjOf(E), E.k) /\ PCallStart(E.c, ObjOf(E), E.k)
 TFnStart   == IsEvent("fnStart")   /\ CanFnStart(E.c)        /\ PFnStart(E.c)
 TFnEnd     == IsEvent("fnEnd")     /\ CanFnEnd(E.c, E.v, E.err) /\ PFnEnd(E.c, E.v, E.err)
 TFnPanic   == IsEvent("fnPanic")   /\ CanFnPanic(E.c)        /\ PFnPanic(E.c)
 TCallEnd   == IsEvent("callEnd")   /\ CanCallEnd(E.c, E.v, E.err, E.fresh) /\ PCallEnd(E.c)
 TCallPanic == IsEvent("callPanic") /\ CanCallPanic(E.c)      /\ PCallPanic(E.c)
 TBlocked   == IsEvent("blocked")   /\ CanBlocked(E.c)        /\ UNCHANGED pvars
-TDel       == IsEvent("del")       /\ CanDel(E.k)            /\ PDel(E.k)
-TInject    == IsEvent("inject")    /\ CanDel(E.k)            /\ PInject(E.k, E.v)
+TDel       == IsEvent("del")       /\ CanDel(ObjOf(E), E.k) /\ PDel(ObjOf(E), E.k)
+TInject    == IsEvent("inject")    /\ CanDel(ObjOf(E), E.k) /\ PInject(ObjOf(E), E.k, E.v)
 
 TInit == PInit("sf") /\ l = 1
 TNext == \/ TReset \/ TCallStart \/ TFnStart \/ TFnEnd \/ TFnPanic
